@@ -38,6 +38,9 @@ func skolemize(t *Term, pos bool, sk *[]*Term) *Term {
 		return Or(args...)
 	case t.kind == 'a' && t.op == "not":
 		return Not(skolemize(t.args[0], !pos, sk))
+	case t.kind == 'a' && t.op == "=" && t.args[0].sort == SBool:
+		a, b := t.args[0], t.args[1]
+		return skolemize(And(Implies(a, b), Implies(b, a)), pos, sk)
 	case t.kind == 'a' && t.op == "=>":
 		return Implies(skolemize(t.args[0], !pos, sk), skolemize(t.args[1], pos, sk))
 	case t.kind == 'a' && t.op == "ite" && t.sort == SBool && !hasQuant(t.args[0]):
@@ -77,11 +80,17 @@ func instantiate(t *Term, pos bool, consts []*Term, budget *int) *Term {
 				}
 				cands = append(cands, c)
 			}
-			total := 1
-			for _, c := range cands {
-				total *= len(c)
-				if total > 100 {
-					return t
+			// keep the product bounded: constants come in priority order (goal skolems first), so
+			// for several bound variables only the leading ones are used
+			limit := 100
+			if len(cands) == 2 {
+				limit = 10
+			} else if len(cands) >= 3 {
+				limit = 4
+			}
+			for i := range cands {
+				if len(cands[i]) > limit {
+					cands[i] = cands[i][:limit]
 				}
 			}
 			var insts []*Term
@@ -120,12 +129,75 @@ func instantiate(t *Term, pos bool, consts []*Term, budget *int) *Term {
 		return Or(args...)
 	case t.kind == 'a' && t.op == "not":
 		return Not(instantiate(t.args[0], !pos, consts, budget))
+	case t.kind == 'a' && t.op == "=" && t.args[0].sort == SBool:
+		// a <=> b: both directions, each with its own polarity
+		a, b := t.args[0], t.args[1]
+		return instantiate(And(Implies(a, b), Implies(b, a)), pos, consts, budget)
 	case t.kind == 'a' && t.op == "=>":
 		return Implies(instantiate(t.args[0], !pos, consts, budget), instantiate(t.args[1], pos, consts, budget))
 	case t.kind == 'a' && t.op == "ite" && t.sort == SBool && !hasQuant(t.args[0]):
 		return Ite(t.args[0], instantiate(t.args[1], pos, consts, budget), instantiate(t.args[2], pos, consts, budget))
 	}
 	return t
+}
+
+// skolemSums returns the integer sums / differences occurring in t that mention a skolem
+// constant and no array read (smallest first).
+func skolemSums(t *Term, sk []*Term) []*Term {
+	isSk := map[int]bool{}
+	for _, c := range sk {
+		if c.sort == SInt {
+			isSk[c.id] = true
+		}
+	}
+	if len(isSk) == 0 {
+		return nil
+	}
+	var out []*Term
+	visited := map[int]bool{}
+	var hasSk func(t *Term) (bool, bool)
+	hasSk = func(t *Term) (bool, bool) { // (mentions a skolem, is select-free)
+		if isSk[t.id] {
+			return true, true
+		}
+		if t.kind == 'a' && t.op == "ite" {
+			return false, false
+		}
+		any, pure := false, true
+		for _, a := range t.args {
+			m, p := hasSk(a)
+			any = any || m
+			pure = pure && p
+		}
+		return any, pure
+	}
+	var walk func(t *Term)
+	walk = func(t *Term) {
+		if visited[t.id] {
+			return
+		}
+		visited[t.id] = true
+		if t.kind == 'a' && t.sort == SInt && (t.op == "+" || t.op == "-") && t.n <= 60 {
+			if m, p := hasSk(t); m && p {
+				out = append(out, t)
+			}
+		}
+		for _, a := range t.args {
+			walk(a)
+		}
+	}
+	walk(t)
+	for i := 0; i < len(out); i++ {
+		for j := i + 1; j < len(out); j++ {
+			if out[j].n < out[i].n {
+				out[i], out[j] = out[j], out[i]
+			}
+		}
+	}
+	if len(out) > 4 {
+		out = out[:4]
+	}
+	return out
 }
 
 // prepareQuery skolemises the goal and returns extra hypothesis instances.
@@ -151,27 +223,43 @@ func prepareQuery(pc, goal *Term, hints []*Term) (newGoal *Term, newPC *Term, ex
 		hyps = append(hyps, c)
 	}
 	pc = And(hyps...)
-	if len(hsk) <= 4 {
+	if len(hsk) <= 8 {
 		sk = append(sk, hsk...)
 	}
 	if len(sk) == 0 && len(hints) == 0 {
 		return g, pc, True
 	}
-	// also offer neighbours of integer skolems (shifted accesses such as old[i+1])
+	// candidate constants in priority order: skolems of the goal and the hypotheses, index sums
+	// of the goal (oldLen + j), the integer locals, and neighbours of the goal's skolems
 	consts := append([]*Term{}, sk...)
-	for _, c := range sk {
-		if c.sort == SInt && len(sk) <= 2 {
-			consts = append(consts, Add(c, IntLit(1)), Sub(c, IntLit(1)))
-		}
-	}
 	seen := map[int]bool{}
 	for _, c := range consts {
 		seen[c.id] = true
 	}
+	for _, x := range skolemSums(g, sk) {
+		if !seen[x.id] && len(consts) < 14 {
+			seen[x.id] = true
+			consts = append(consts, x)
+		}
+	}
 	for _, h := range hints {
-		if !seen[h.id] && len(consts) < 9 {
+		if !seen[h.id] && len(consts) < 16 {
 			seen[h.id] = true
 			consts = append(consts, h)
+		}
+	}
+	ngoal := len(sk) - len(hsk)
+	if len(hsk) > 8 {
+		ngoal = len(sk)
+	}
+	for k, c := range sk {
+		if k < ngoal && c.sort == SInt && ngoal <= 2 {
+			for _, x := range []*Term{Add(c, IntLit(1)), Sub(c, IntLit(1))} {
+				if !seen[x.id] {
+					seen[x.id] = true
+					consts = append(consts, x)
+				}
+			}
 		}
 	}
 	budget := 600
